@@ -43,6 +43,9 @@ class Lit:
 # definitions of locals inside one function
 
 
+_FRESH_CALLS = {"deque", "list", "dict", "set", "bytearray", "defaultdict", "monotonic", "time", "ensure_future", "cast", "iter", "open"}
+
+
 class FnDefs:
     """Single-definition locals of a function (incl. walrus) and ALL-CAPS parameter aliases."""
 
@@ -127,6 +130,13 @@ class FnDefs:
             return None
         for sub in ast.walk(value):
             if isinstance(sub, (ast.Await, ast.Yield, ast.YieldFrom, ast.Lambda, ast.NamedExpr)):
+                return None
+        if isinstance(value, (ast.List, ast.Dict, ast.Set, ast.ListComp, ast.DictComp, ast.SetComp, ast.GeneratorExp)):
+            return None  # mutable / fresh object: identity matters, the definition is not its value later
+        if isinstance(value, ast.Call):
+            f = value.func
+            nm = f.id if isinstance(f, ast.Name) else (f.attr if isinstance(f, ast.Attribute) else "")
+            if nm[:1].isupper() or nm in _FRESH_CALLS or nm.startswith("create_"):
                 return None
         return value
 
